@@ -48,6 +48,10 @@ def cases(tier, seed, flavour):
                        'seed': seed}
     for i in range(len(MON)):
         yield {'part': 'monitor', 'idx': i, 'seed': seed, 'tier': tier}
+    # scalings handed out after a restore-and-retry of cpl (KKT failure after a relaxed step): every fault position
+    for tag in ('ballo1.1', 'ball2.0', 'ballo2.0', 'expc2'):
+        for cone in ({'l': 1, 'q': [2], 's': [2]}, {'l': 0, 'q': [], 's': [2, 2]}):
+            yield {'part': 'monitor-fault', 'tag': tag, 'cone': cone, 'seed': seed}
 
 
 # ------------------------------------------------------------------------------------------------ part 1
@@ -472,7 +476,30 @@ def run_monitor(case):
             'states': cnt['W'], 'transitions': max(0, cnt['W'] - 1), 'traces': 1}
 
 
+def run_monitor_fault(case):
+    from checks import C10
+    b = {'kind': 'nl', 'tag': case['tag'], 'cone': case['cone'], 'refinement': 1, 'seed': case['seed']}
+    inst, cfg, runner = C10._setup(b)
+    base = C10.Fault()
+    res0, _ = runner(base)
+    viol = []
+    n = 1
+    if getattr(base, 'wviol', None):
+        viol.append({'key': 'C07:handed-out-W:cpl:fault-free', 'msg': base.wviol})
+    for k in range(base.nf):
+        flt = C10.Fault((k,), ())
+        runner(flt)
+        n += 1
+        if getattr(flt, 'wviol', None):
+            viol.append({'key': 'C07:handed-out-W:cpl:after-kkt-failure', 'msg': 'after an ArithmeticError in kktsolver call #%d '
+                         '(restore-and-retry): %s' % (k, flt.wviol), 'sub': {'tag': case['tag'], 'cone': case['cone'], 'fail_factor': k}})
+            break
+    return {'n': n, 'nontrivial': n, 'viol': viol, 'outcomes': {'monitored-fault-runs': n}, 'states': n, 'transitions': n - 1, 'traces': n}
+
+
 def run(case):
+    if case['part'] == 'monitor-fault':
+        return run_monitor_fault(case)
     if case['part'] == 'scaling':
         return run_scaling(case)
     if case['part'] == 'factory':
